@@ -508,9 +508,11 @@ def rule_stream(ctx, R, F):
             sl = slc.Slice(F, h, {}, limit=20000, what='B2-STREAM')
             env = {ps[0]['id']: S, ps[1]['id']: IN, ps[2]['id']: inlen}
             try:
-                sl.run(f['body'], env)
+                ret = sl.run(f['body'], env)
             except slc.NeedChoice as e:
                 raise AnalysisBroken('B2-STREAM: condition %s does not depend on the lengths alone' % e.key)
+            if ret is not None and ret[0] == 'ret' and ret[1] not in (0, None):
+                h.bad.append('valid call rejected with %s' % ret[1])
             stream = [('old', j) for j in range(b)] + [('in', j) for j in range(inlen)]
             total = len(stream)
             nblk = 0 if (total <= 128 or inlen == 0) else (total + 127) // 128 - 1
@@ -540,6 +542,21 @@ def rule_stream(ctx, R, F):
                 R.check(ok, 'buffered %d, inlen %d' % (b, inlen), where, expected='%d block(s) compressed, %d byte(s) left buffered' % (nblk, len(rest)), found='; '.join(why[:3]) or 'as expected')
             else:
                 R.ok('buffered %d, inlen %d' % (b, inlen), where)
+    # the empty chunk (in == NULL, inlen == 0), which blake2b() itself passes on for an empty message, is accepted and changes nothing
+    for b in (0, 1, 64, 128):
+        h = _B2H(b, 1280, {'blake2b_increment_counter': inc})
+        sl = slc.Slice(F, h, {}, limit=20000, what='B2-STREAM')
+        env = {ps[0]['id']: S, ps[1]['id']: 0, ps[2]['id']: 0}
+        try:
+            ret = sl.run(f['body'], env)
+        except slc.NeedChoice as e:
+            raise AnalysisBroken('B2-STREAM: condition %s does not depend on the lengths alone' % e.key)
+        rv = ret[1] if ret is not None and ret[0] == 'ret' else 0
+        same = [h.mem.get(BUF + j) for j in range(b)] == [('old', j) for j in range(b)]
+        ok = rv == 0 and not h.events and h.buflen == b and same and not h.bad
+        n += 1
+        R.check(ok, 'buffered %d, empty chunk (NULL, 0)' % b, where, expected='returns 0; nothing compressed; buffer and buflen unchanged',
+                found='returns %s; %d block(s) compressed; buflen %s%s' % (rv, len(h.events), h.buflen, '; ' + '; '.join(h.bad[:2]) if h.bad else ''))
     if n < 1500:
         raise AnalysisBroken('B2-STREAM: only %d cases evaluated' % n)
 
